@@ -272,6 +272,19 @@ func (ex *Exec) loopModified(li *loopInfo) *modSet {
 				}
 			case *ssa.MapUpdate:
 				ex.mapHeapMods(in.Map.Type(), ms)
+			case *ssa.Send, *ssa.Select:
+				if ex.con != nil && ex.con.ChanEvents {
+					for _, g := range []string{"sends", "recvs", "dones", "timeouts", "drained"} {
+						ms.heaps["G_ghost."+g] = SInt
+					}
+					if sel, ok := in.(*ssa.Select); ok {
+						for _, s := range sel.States {
+							if s.Dir != types.SendOnly {
+								ms.heaps["G_ghost."+chanClass(s.Chan)] = SInt
+							}
+						}
+					}
+				}
 			case ssa.CallInstruction:
 				ex.callModified(in, ms)
 			}
@@ -297,6 +310,17 @@ func (ex *Exec) callModified(in ssa.CallInstruction, ms *modSet) {
 			ms.all = true
 		}
 		return
+	}
+	if ex.con != nil && ex.con.Ticks != nil {
+		cn := ""
+		if callee := c.StaticCallee(); callee != nil {
+			cn = callee.Name()
+		} else if c.IsInvoke() {
+			cn = c.Method.Name()
+		}
+		if g, ok := ex.con.Ticks[cn]; ok && cn != "" {
+			ms.heaps["G_ghost."+g] = SInt
+		}
 	}
 	if callee := c.StaticCallee(); callee != nil {
 		name := callee.String()
@@ -728,6 +752,11 @@ func (ex *Exec) finish() {
 	vc := ex.vc
 	if ex.con == nil {
 		return
+	}
+	for callee, g := range ex.con.Ticks {
+		if !ex.obsSeen["tick:"+g] {
+			ex.fail("tick %s at %s: no call of %s found (anchor missing)", g, callee, callee)
+		}
 	}
 	for callee, v := range ex.con.Counts {
 		if !ex.obsSeen[v] {
